@@ -53,7 +53,7 @@ def tdvp_case(ctx, idx, rng):
         ctx.case(('no-nonzero-state',), nontrivial=False)
         return
     label, L, H, psi, prof = prob
-    numiter = int(rng.choice([1, 2, 3, 5, 25]))
+    numiter = int(rng.choice([1, 2, 3, 5, 25, 25]))
     nsteps = int(rng.integers(1, 5))
     dt = 1j * float(rng.choice([-1, 1])) * float(rng.uniform(0.01, 0.5))
     scale = float(rng.choice([1.0, 0.3, 7.0])) * np.exp(1j * float(rng.uniform(0, 2 * np.pi)) if rng.random() < 0.3 else 0)
@@ -96,7 +96,10 @@ def tdvp_case(ctx, idx, rng):
     fn = ptn.integrate_local_twosite if two else ptn.integrate_local_singlesite
     with monitor.attached('pytenet.evolution._local_hamiltonian_step', around_h), monitor.attached('pytenet.evolution._local_bond_step', around_b), \
             monitor.write_protected(H):
-        ret = fn(H, psi, dt, nsteps, numiter_lanczos=numiter) if idx % 3 else (fn(H, psi, dt, nsteps, numiter) if not two else fn(H, psi, dt, nsteps, numiter, 0))
+        if numiter == 25 and idx % 2:
+            ret = fn(H, psi, dt, nsteps)                  # documented defaults: numiter_lanczos = 25 (and tol_split = 0)
+        else:
+            ret = fn(H, psi, dt, nsteps, numiter_lanczos=numiter) if idx % 3 else (fn(H, psi, dt, nsteps, numiter) if not two else fn(H, psi, dt, nsteps, numiter, 0))
     ctx.ok('hamiltonian-untouched', monitor.digest(H) == dH, 'the Hamiltonian MPO was modified', detail)
     ok = np.isrealobj(ret) and np.isfinite(ret)
     if not ctx.ok('return.real-finite', bool(ok), f'returned {ret!r}', detail):
